@@ -10,6 +10,7 @@
 #include <amgcl/backend/block_crs.hpp>
 #include <amgcl/backend/builtin_hybrid.hpp>
 #include <amgcl/backend/eigen.hpp>
+#include <omp.h>
 #include "harness_main.hpp"
 
 const char *CHECK_ID = "C07";
@@ -66,6 +67,15 @@ static void run_scalar(Ctx &c) {
         V chk = V(); for (long i = 0; i < n; ++i) chk += y[i] * amgcl::math::adjoint(z[i]);
         if (!eq((V)ip, chk) || !eq(ip, want)) c.fail("inner_product", "formula", fmt("n=%ld", n));
         if (n >= 1 && sim::get_num_threads_max() >= 2) c.res.counts["inner_product_parallel"]++;
+        // the same primitives called from inside the caller's own parallel region (the nested regions get a team of one)
+        if (c.p.get("nested") && n >= 1) {
+            int T = std::min(sim::get_num_threads_max(), 4); std::vector<V> got(T), got2(T * (size_t)n);
+#pragma omp parallel num_threads(T)
+            { int t = omp_get_thread_num(); got[t] = (V)be::inner_product(y, z); std::vector<V> o(n); for (long i = 0; i < n; ++i) o[i] = mk<V>::poison((int)(i + t) % 3); be::spmv(S(1), A, x, S(0), o); for (long i = 0; i < n; ++i) got2[t * (size_t)n + i] = o[i]; }
+            for (int t = 0; t < T; ++t) { if (!eq(got[t], chk)) { c.fail("inner_product", "called-inside-parallel-region", fmt("outer thread %d of %d", t, T)); break; }
+                for (long i = 0; i < n; ++i) if (!eq(got2[t * (size_t)n + i], Ax(i))) { c.fail("spmv", "called-inside-parallel-region", fmt("outer thread %d row %ld", t, i)); t = T; break; } }
+            c.res.counts["nested_region_calls"]++;
+        }
     }
 }
 
@@ -179,6 +189,7 @@ Plan generate(uint64_t seed, uint64_t run, bool thorough) {
     static const long coef[] = { 0, 1, -1, 2, -3, 1, 0 };
     p.set("alpha", coef[r.below(7)], 0); p.set("beta", coef[r.below(7)], 0);
     p.set("poison", r.range(0, 2), 0); p.set("lc", r.range(0, 3), 0); p.set("bs", r.range(2, 4), 2);
+    p.set("nested", r.chance(0.3) ? 1 : 0, 0);
     p.set("nt", draw_nt(r, 1, 32), 1);
     draw_schedule(r, p.sched, (int)p.get("nt"));
     return p;
